@@ -10,17 +10,20 @@ package model
 
 //@ func (*Criterion).Multiplier
 //@   property C03 C11 C12 C13 C14 C19 C07 C09 C15 C20 C01 C04 C05 C06 C16 C18
+//@   indexsafe
 //@   nopanic
 //@   ensures [mult] real(result) == mult(*c)
 //@   ensures [pm1] result == 1 || result == -1
 
 //@ func (*AlternativeWithCriteria).CriterionRawValue
 //@   property C03 C11 C12 C13 C14 C16 C17 C20 C01 C04 C09 C05 C06 C07 C15 C18 C19
+//@   indexsafe
 //@   panics_iff [missing] !(criterion.Id in a.Criteria)
 //@   ensures [raw] result == a.Criteria[criterion.Id]
 
 //@ func (*AlternativeWithCriteria).CriterionValue
 //@   property C03 C11 C12 C13 C01 C04 C09 C14 C16 C05 C06 C19 C20 C07 C15 C18
+//@   indexsafe
 //@   panics_iff [missing] !(criterion.Id in a.Criteria)
 //@   ensures [signed] result == signed(*a, *criterion)
 
@@ -32,6 +35,7 @@ package model
 
 //@ func CriteriaValuesRange
 //@   property C14 C16 C17 C13 C01 C03 C04 C09 C07 C12 C18 C19 C20
+//@   indexsafe
 //@   ensures [nonnil] result != nil
 //@   ensures [declared_first] criterion.ValuesRange != nil ==> result == criterion.ValuesRange
 //@   ensures [observed_bounds] criterion.ValuesRange == nil ==> fresh(result) && (forall k int :: 0 <= k && k < len(*alternatives) ==>
@@ -52,6 +56,7 @@ package model
 
 //@ func (*DecisionMakingParams).AllAlternatives
 //@   property C09 C14 C16 C17 C07 C08 C20 C01 C11 C12 C13 C18 C19
+//@   indexsafe
 //@   ensures [len] len(result) == len(p.ConsideredAlternatives) + len(p.NotConsideredAlternatives)
 //@   ensures [concat] forall k int :: 0 <= k && k < len(result) ==> result[k] == altAt(p.ConsideredAlternatives, p.NotConsideredAlternatives, k)
 //@   ensures [fresh] fresh(result)
@@ -60,11 +65,13 @@ package model
 
 //@ func (*Weights).Fetch
 //@   property C07 C15 C16 C18 C20 C01 C03 C09 C11 C12 C13 C14 C19
+//@   indexsafe
 //@   panics_iff [missing] !(key in *w)
 //@   ensures [value] result == (*w)[key]
 
 //@ func (*Weights).Copy
 //@   property C16 C07 C09 C01 C20
+//@   indexsafe
 //@   ensures [copy] fresh(result) && fresh(*result) && (forall k string :: (k in *result <==> k in *w) && (k in *w ==> (*result)[k] == (*w)[k]))
 //@   loop 1 invariant [copied] forall k string :: seen(k) ==> (k in result && result[k] == (*w)[k])
 //@   loop 1 invariant [only] forall k string :: k in result ==> seen(k)
@@ -72,6 +79,7 @@ package model
 
 //@ func (*Weights).PreserveOnly
 //@   property C07 C15 C01 C11 C12 C13 C14 C09 C20
+//@   indexsafe
 //@   panics_iff [missing] exists i int :: 0 <= i && i < len(*criteria) && !((*criteria)[i].Id in *w)
 //@   ensures [restricted] fresh(result) && fresh(*result) && (forall i int :: 0 <= i && i < len(*criteria) ==> (*criteria)[i].Id in *result && (*result)[(*criteria)[i].Id] == (*w)[(*criteria)[i].Id])
 //@   ensures [only] forall k string :: k in *result ==> exists i int :: 0 <= i && i < len(*criteria) && (*criteria)[i].Id == k
@@ -81,6 +89,7 @@ package model
 
 //@ func (*Weights).Merge
 //@   property C07 C18 C01 C11 C12 C13 C14 C03 C09 C19 C20
+//@   indexsafe
 //@   panics_iff [overlap] exists k string :: k in *w && k in *other
 //@   ensures [union] fresh(result) && fresh(*result) && (forall k string :: (k in *result <==> (k in *w || k in *other)))
 //@   ensures [values] forall k string :: (k in *w ==> (*result)[k] == (*w)[k]) && (k in *other ==> (*result)[k] == (*other)[k])
@@ -102,12 +111,14 @@ package model
 
 //@ func FetchAlternative
 //@   property C01 C07 C09 C16 C20 C08 C03 C04 C05 C06 C11 C12 C13 C14 C15 C17 C18 C19
+//@   indexsafe
 //@   panics_iff [unknown] !(exists k int :: 0 <= k && k < len(*a) && (*a)[k].Id == id)
 //@   ensures [first_match] exists k int :: 0 <= k && k < len(*a) && result == (*a)[k] && (*a)[k].Id == id && (forall j int :: 0 <= j && j < k ==> (*a)[j].Id != id)
 //@   loop 1 invariant [none_before] forall j int :: 0 <= j && j < iter ==> (*a)[j].Id != id
 
 //@ func UpdateAlternatives
 //@   property C07 C09 C16 C08 C20 C01 C18 C19
+//@   indexsafe
 //@   panics_iff [unknown] exists i int :: 0 <= i && i < len(*old) && !(exists k int :: 0 <= k && k < len(*newOnes) && (*newOnes)[k].Id == (*old)[i].Id)
 //@   ensures [shape] fresh(result) && fresh(*result) && len(*result) == len(*old)
 //@   ensures [matched] forall i int :: 0 <= i && i < len(*old) ==> (*result)[i].Id == (*old)[i].Id &&
@@ -119,6 +130,7 @@ package model
 
 //@ func FetchAlternatives
 //@   property C01 C09 C20 C07 C08 C03 C04 C05 C06 C11 C12 C13 C14 C15 C16 C17 C18 C19
+//@   indexsafe
 //@   panics_iff [unknown] exists i int :: 0 <= i && i < len(*ids) && !(exists k int :: 0 <= k && k < len(*a) && (*a)[k].Id == (*ids)[i])
 //@   ensures [shape] fresh(result) && fresh(*result) && len(*result) == len(*ids) && cap(*result) == len(*ids)
 //@   ensures [matched] forall i int :: 0 <= i && i < len(*ids) ==> (*result)[i].Id == (*ids)[i] && (exists k int :: 0 <= k && k < len(*a) && (*result)[i] == (*a)[k])
@@ -151,6 +163,7 @@ package model
 
 //@ func (*WeightedCriteria).Criteria
 //@   property C15 C07 C09 C20 C16 C18 C19 C01
+//@   indexsafe
 //@   ensures [same_order] fresh(result) && fresh(*result) && len(*result) == len(*w) && forall i int :: 0 <= i && i < len(*w) ==> (*result)[i] == (*w)[i].Criterion
 //@   loop 1 invariant [ctx] fresh(result) && len(result) == len(*w)
 //@   loop 1 invariant [copied] forall i int :: 0 <= i && i < iter ==> result[i] == (*w)[i].Criterion
@@ -159,11 +172,13 @@ package model
 
 //@ func (*Criteria).FindWeight
 //@   property C07 C15 C20 C09 C01 C03 C11 C12 C13 C14 C16 C18 C19
+//@   indexsafe
 //@   panics_iff [missing] !(criterion.Id in *weights)
 //@   ensures [value] result == (*weights)[criterion.Id]
 
 //@ func (*Criteria).ZipWithWeights
 //@   property C07 C15 C20 C09 C01 C03 C11 C12 C13 C14
+//@   indexsafe
 //@   panics_iff [missing] exists i int :: 0 <= i && i < len(*c) && !((*c)[i].Id in *weights)
 //@   ensures [zipped] fresh(result) && fresh(*result) && len(*result) == len(*c)
 //@             && forall i int :: 0 <= i && i < len(*c) ==> (*result)[i].Criterion == (*c)[i] && (*result)[i].Weight == (*weights)[(*c)[i].Id]
@@ -172,6 +187,7 @@ package model
 
 //@ func (*Criteria).SortByWeights
 //@   property C07 C15 C02 C09 C20 C16 C18 C19 C11 C01 C03
+//@   indexsafe
 //@   panics_iff [missing] exists i int :: 0 <= i && i < len(*c) && !((*c)[i].Id in weights)
 //@   ensures [len_is_criteria] fresh(result) && fresh(*result) && len(*result) == len(*c)
 //@   ensures [members] forall k int :: 0 <= k && k < len(*result) ==> exists j int :: 0 <= j && j < len(*c) && (*result)[k].Criterion == (*c)[j] && (*result)[k].Weight == weights[(*c)[j].Id]
@@ -183,12 +199,14 @@ package model
 
 //@ func (*Criteria).Add
 //@   property C07 C18 C09 C15 C20 C01 C19 C03
+//@   indexsafe
 //@   panics_iff [duplicate] exists k int :: 0 <= k && k < len(*c) && (*c)[k].Id == criterion.Id
 //@   ensures [appended] len(result) == len(*c) + 1 && result[len(*c)] == *criterion && forall k int :: 0 <= k && k < len(*c) ==> result[k] == (*c)[k]
 //@   loop 1 invariant [none] forall k int :: 0 <= k && k < iter ==> (*c)[k].Id != criterion.Id
 
 //@ func (*Criteria).Validate
 //@   property C20 C07 C09 C15 C01 C03 C04 C05 C06 C08 C11 C12 C13 C14 C16 C17 C18 C19
+//@   indexsafe
 //@   panics_iff [duplicate_or_bad_range] (exists i int, j int :: 0 <= i && i < j && j < len(*c) && (*c)[i].Id == (*c)[j].Id)
 //@             || (exists i int :: 0 <= i && i < len(*c) && (*c)[i].ValuesRange != nil && (*c)[i].ValuesRange.Max <= (*c)[i].ValuesRange.Min)
 //@   loop 1 invariant [seen] forall j int :: 0 <= j && j < iter ==> (*c)[j].Id in criteriaSet
@@ -206,6 +224,7 @@ package model
 
 //@ func (*AlternativeWithCriteria).WithCriteriaOnly
 //@   property C07 C15 C01 C03 C04 C09 C14 C16 C20
+//@   indexsafe
 //@   panics_iff [missing] exists k int :: 0 <= k && k < len(*criteria) && !((*criteria)[k].Id in a.Criteria)
 //@   ensures [restricted] fresh(result) && fresh(result.Criteria) && restrictedTo(*result, *a, *criteria)
 //@   loop 1 invariant [ctx] fresh(newCriteria) && newCriteria != nil
@@ -214,6 +233,7 @@ package model
 
 //@ func PreserveCriteriaForAlternatives
 //@   property C07 C15 C01 C03 C04 C09 C14 C16 C20
+//@   indexsafe
 //@   panics_iff [missing] exists i int, k int :: 0 <= i && i < len(*alternatives) && 0 <= k && k < len(*criteria) && !((*criteria)[k].Id in (*alternatives)[i].Criteria)
 //@   ensures [shape] fresh(result) && fresh(*result) && len(*result) == len(*alternatives)
 //@   ensures [restricted] forall i int :: 0 <= i && i < len(*alternatives) ==> restrictedTo((*result)[i], (*alternatives)[i], *criteria) && fresh((*result)[i].Criteria)
@@ -258,13 +278,16 @@ package model
 
 //@ func GetScaleRatio
 //@   property C18 C19 C20 C01 C07 C09
+//@   indexsafe
 //@   nopanic
 //@   ensures [ratio] result == ((currentRange.Max - currentRange.Min) != 0.0 ? (target.Max - target.Min) / (currentRange.Max - currentRange.Min) : 0.0)
 //@ func GetNormalScaleRatio
 //@   property C19 C18 C20 C09 C01
+//@   indexsafe
 //@   ensures [ratio] result == ((currentRange.Max - currentRange.Min) != 0.0 ? 1.0 / (currentRange.Max - currentRange.Min) : 0.0)
 //@ func ValuesRangeWithGroundZero
 //@   property C18 C09 C01 C07 C20
+//@   indexsafe
 //@   ensures [ground_zero] fresh(result) && result.Min == 0.0
 //@   ensures [declared] criterion.ValuesRange != nil ==> result.Max == max(max(abs(criterion.ValuesRange.Min), abs(criterion.ValuesRange.Max)), criterion.ValuesRange.Max - criterion.ValuesRange.Min)
 //@   ensures [nonneg] result.Max >= 0.0
@@ -273,6 +296,7 @@ package model
 //@      c.Type == Cost ? (cur.Max - v) * scale + target.Min : (v - cur.Min) * scale + target.Min
 //@ func scaleCriterion
 //@   property C18 C01 C07 C09 C20
+//@   indexsafe
 //@   panics_iff [missing] !(c.Id in a.Criteria)
 //@   ensures [rescaled] result == rescaled(*c, a.Criteria[c.Id], *currentRange, scale, *target)
 
@@ -281,6 +305,7 @@ package model
 //@ func RescaleCriterion
 //@   assumes [the_rescaled_values_of_these_alternatives] isRescaledOf(result, *c, alternatives, target)
 //@   property C18 C01 C07 C09 C20
+//@   indexsafe
 //@   ensures [fresh] fresh(result) && result != nil
 //@   ensures [all] forall k int :: 0 <= k && k < len(*alternatives) ==> (*alternatives)[k].Id in result
 //@   ensures [only] forall q string :: q in result ==> exists k int :: 0 <= k && k < len(*alternatives) && (*alternatives)[k].Id == q
@@ -299,6 +324,7 @@ package model
 
 //@ func NewCriterionValue
 //@   property C18 C07 C15 C20 C01 C11 C09 C19
+//@   indexsafe
 //@   fnparam generator ensures 0.0 <= result && result < 1.0
 //@   ensures [fraction_of_reference] fractionOf(result, (*previousWeights)[baseCriterion.Id])
 
@@ -310,6 +336,7 @@ package model
 
 //@ func (*AlternativeWithCriteria).WithCriterion
 //@   property C07 C18 C01 C03 C04 C09 C14 C16 C19 C20
+//@   indexsafe
 //@   panics_iff [exists] name in a.Criteria
 //@   ensures [extended] fresh(result) && fresh(result.Criteria) && extendedBy(*result, *a, name) && result.Criteria[name] == value
 //@   loop 1 invariant [copied] forall k string :: seen(k) ==> (k in criteria && criteria[k] == a.Criteria[k])
@@ -318,6 +345,7 @@ package model
 
 //@ func AddCriterionToAlternatives
 //@   property C07 C18 C01 C03 C04 C09 C14 C16 C20
+//@   indexsafe
 //@   ensures [shape] fresh(result) && fresh(*result) && len(*result) == len(*alternatives)
 //@   ensures [extended] forall i int :: 0 <= i && i < len(*alternatives) ==> extendedBy((*result)[i], (*alternatives)[i], newCriterion.Id) && fresh((*result)[i].Criteria)
 //@   loop 1 invariant [ctx] fresh(newAlts) && len(newAlts) == len(*alternatives)
@@ -325,6 +353,7 @@ package model
 
 //@ func SortAlternativesByName
 //@   property C18 C09 C02 C01 C03 C04 C14 C16 C07 C20
+//@   indexsafe
 //@   ensures [fresh_copy] fresh(result) && fresh(*result) && len(*result) == len(*alternatives)
 //@   ensures [members] forall k int :: 0 <= k && k < len(*result) ==> exists j int :: 0 <= j && j < len(*alternatives) && (*result)[k] == (*alternatives)[j]
 //@   ensures [all_present] forall j int :: 0 <= j && j < len(*alternatives) ==> exists k int :: 0 <= k && k < len(*result) && (*result)[k] == (*alternatives)[j]
@@ -334,19 +363,23 @@ package model
 //@ spec cntp(c []Criterion, p string, n int) int = n <= 0 ? 0 : cntp(c, p, n - 1) + (has_prefix(c[n - 1].Id, p) ? 1 : 0)
 //@ func (*Criteria).countWithPrefix
 //@   property C18 C07 C09 C15 C20 C01 C19
+//@   indexsafe
 //@   ensures [nonneg] result >= 0
 //@   ensures [ids_starting_with_the_prefix] result == cntp(*c, prefix, len(*c))
 //@   loop 1 invariant [nonneg] concealedCriteriaCount >= 0
 //@   loop 1 invariant [so_far] concealedCriteriaCount == cntp(*c, prefix, iter)
 //@ func firstFreeName
 //@   property C18 C07 C09 C15 C20 C01 C19
+//@   indexsafe
 //@   ensures [name] result == (count == 0 ? name : name + itoa(count))
 
 //@ func (*Criteria).NotUsedName
 //@   property C18 C07 C19 C01 C09 C15 C20
+//@   indexsafe
 //@   ensures [name_then_count_of_ids_with_that_prefix] result == (cntp(*c, name, len(*c)) == 0 ? name : name + itoa(cntp(*c, name, len(*c))))
 //@ func (*Criterion).IsGain
 //@   property C14 C12 C13 C03 C01 C09 C19 C07 C15 C20
+//@   indexsafe
 //@   nopanic
 //@   ensures [gain_unless_declared_cost] result <==> c.Type != Cost
 //@ func (*Criteria).First
@@ -354,32 +387,39 @@ package model
 //@   ensures [first] len(*c) > 0 && result == (*c)[0]
 //@ func (*Criteria).Weight
 //@   property C15 C07 C09 C11 C16 C18 C19 C20 C01 C03
+//@   indexsafe
 //@   panics_iff [no_such_criterion_or_weight] !(0 <= criterionIndex && criterionIndex < len(*c)) || !((*c)[criterionIndex].Id in weights)
 //@   ensures [of_that_criterion] (*c)[criterionIndex].Id in weights && result == weights[(*c)[criterionIndex].Id]
 //@ func (*Criteria).Names
 //@   property C20 C18 C19 C07 C09 C15 C03 C01
+//@   indexsafe
 //@   nopanic
 //@   ensures [ids_in_order] fresh(result) && fresh(*result) && len(*result) == len(*c) && forall i int :: 0 <= i && i < len(*c) ==> (*result)[i] == (*c)[i].Id
 //@   loop 1 invariant [so_far] fresh(result) && len(result) == len(*c) && forall i int :: 0 <= i && i < iter ==> result[i] == (*c)[i].Id
 //@ func (*Criteria).ShallowCopy
 //@   property C09 C07 C19 C15 C20 C01 C16 C18
+//@   indexsafe
 //@   nopanic
 //@   ensures [copy] fresh(result) && fresh(*result) && len(*result) == len(*c) && (forall i int :: 0 <= i && i < len(*c) ==> (*result)[i] == (*c)[i]) && unchanged(*c)
 //@ func (*Criteria).Len
 //@   property C20 C07 C09 C15 C01 C18 C03 C04 C05 C06 C08 C11 C12 C13 C14 C16 C17 C19
+//@   indexsafe
 //@   nopanic
 //@   ensures result == len(*c)
 //@ func (Criterion).Identifier
 //@   property C20 C01 C07 C11 C15 C18 C09 C03 C04 C05 C06 C08 C12 C13 C14 C16 C17 C19
+//@   indexsafe
 //@   nopanic
 //@   ensures result == c.Id
 //@ func (*WeightedCriterion).AsWeights
 //@   property C07 C18 C09 C15 C20
+//@   indexsafe
 //@   nopanic
 //@   ensures [single] result != nil && fresh(result) && c.Id in *result && (*result)[c.Id] == c.Weight && forall q string :: q in *result ==> q == c.Id
 
 //@ func SingleWeight
 //@   property C18 C07 C03 C04 C01 C11 C09 C19 C20
+//@   indexsafe
 //@   nopanic
 //@   ensures [single] fresh(result.Weights) && criterion.Id in result.Weights && result.Weights[criterion.Id] == value
 //@             && forall q string :: q in result.Weights ==> q == criterion.Id
@@ -417,6 +457,7 @@ package model
 //@ spec blAt(it utils.IdentifiableIterable, i int) utils.Identifiable = it.(*BiasListeners).Listeners[i]
 //@ func (*BiasListeners).Len
 //@   property C20 C07 C15 C01 C03 C04 C05 C06 C08 C09 C11 C12 C13 C14 C16 C17 C18 C19
+//@   indexsafe
 //@   nopanic
 //@   refines utils.IdentifiableIterable.Len with iterLen=blLen
 //@   ensures result == len(pf.Listeners)
@@ -427,6 +468,7 @@ package model
 // Fetch: the listener registered under the method's name; an unknown name is rejected
 //@ func (*BiasListeners).Fetch
 //@   property C20 C07 C01 C03 C04 C05 C06 C08 C09 C11 C12 C13 C14 C15 C16 C17 C18 C19
+//@   indexsafe
 //@   ensures [registered_under_that_name] result != nil && exists k int :: 0 <= k && k < len(pf.Listeners) && *result == pf.Listeners[k] && utils.identOf(pf.Listeners[k]) == listenerName
 //@   assumes [a_function_of_registry_and_name] *result == listenerOf(*pf, listenerName)
 
@@ -435,6 +477,7 @@ package model
 
 //@ func (*DecisionMaker).processBiases
 //@   property C07 C08 C09 C20 C01 C15 C16 C17 C18 C19 C03 C04 C05 C06 C11 C12 C13 C14
+//@   indexsafe
 //@   fnparam biasApplyProbGenerator pure
 //@   fnparam generator ensures 0.0 <= result && result < 1.0
 //@   requires forall i int :: 0 <= i && i < len(*biases) ==> (*biases)[i].Bias != nil && (*biases)[i].Props != nil
@@ -482,6 +525,7 @@ package model
 
 //@ func (*DecisionMaker).validateAlternatives
 //@   property C20 C07 C08 C09 C01 C03 C04 C05 C06 C11 C12 C13 C14 C15 C16 C17 C18 C19
+//@   indexsafe
 //@   panics_iff [missing_value] exists i int, c int :: 0 <= i && i < len(dm.KnownAlternatives) && 0 <= c && c < len(dm.Criteria) && !(dm.Criteria[c].Id in dm.KnownAlternatives[i].Criteria)
 //@   loop 1 invariant [outer] forall i int, c int :: 0 <= i && i < iter && 0 <= c && c < len(dm.Criteria) ==> dm.Criteria[c].Id in dm.KnownAlternatives[i].Criteria
 //@   loop 2 invariant [outer] forall j int, c int :: 0 <= j && j < i && 0 <= c && c < len(dm.Criteria) ==> dm.Criteria[c].Id in dm.KnownAlternatives[j].Criteria
@@ -490,6 +534,7 @@ package model
 
 //@ func (*DecisionMaker).NotConsideredAlternatives
 //@   property C09 C01 C07 C08 C20 C03 C04 C05 C06 C11 C12 C13 C14 C15 C16 C17 C18 C19
+//@   indexsafe
 //@   ensures [fresh] fresh(result)
 //@   ensures [only_unchosen_known] forall k int :: 0 <= k && k < len(*result) ==> exists j int :: 0 <= j && j < len(dm.KnownAlternatives) && (*result)[k] == dm.KnownAlternatives[j] && !chosen(*dm, dm.KnownAlternatives[j].Id)
 //@   ensures [all_unchosen] forall j int :: 0 <= j && j < len(dm.KnownAlternatives) && !chosen(*dm, dm.KnownAlternatives[j].Id) ==> exists k int :: 0 <= k && k < len(*result) && (*result)[k] == dm.KnownAlternatives[j]
@@ -510,6 +555,7 @@ package model
 //@ spec pfAt(it utils.IdentifiableIterable, i int) utils.Identifiable = it.(*PreferenceFunctions).Functions[i]
 //@ func (*PreferenceFunctions).Len
 //@   property C20 C01 C03 C04 C05 C06 C07 C08 C09 C11 C12 C13 C14 C15 C16 C17 C18 C19
+//@   indexsafe
 //@   nopanic
 //@   refines utils.IdentifiableIterable.Len with iterLen=pfLen
 //@   ensures result == len(pf.Functions)
@@ -520,6 +566,7 @@ package model
 // Fetch: returns only the method registered under the requested name - so an unknown name never gets past it (it panics)
 //@ func (*PreferenceFunctions).Fetch
 //@   property C20 C01 C03 C04 C05 C06 C07 C08 C09 C11 C12 C13 C14 C15 C16 C17 C18 C19
+//@   indexsafe
 //@   ensures [registered_under_that_name] result != nil && exists k int :: 0 <= k && k < len(pf.Functions) && *result == pf.Functions[k] && utils.identOf(pf.Functions[k]) == function
 //@   assumes [a_function_of_registry_and_name] *result == funcOf(*pf, function)
 
@@ -527,6 +574,7 @@ package model
 // built by an external reflector and is not described)
 //@ func (*PreferenceFunctions).FetchParameters
 //@   property C20
+//@   indexsafe
 //@   ensures [an_entry_under_the_name_of_every_registered_method] result != nil && forall k int :: 0 <= k && k < len(pf.Functions) ==> utils.identOf(pf.Functions[k]) in *result
 //@   ensures [no_entry_under_another_name] forall q string :: q in *result ==> exists k int :: 0 <= k && k < len(pf.Functions) && utils.identOf(pf.Functions[k]) == q
 //@   loop 1 invariant [so_far] forall k int :: 0 <= k && k < iter ==> utils.identOf(pf.Functions[k]) in functionsParameters
@@ -537,6 +585,7 @@ package model
 
 //@ func (*DecisionMaker).prepareParams
 //@   property C07 C01 C20 C08 C09 C03 C04 C05 C06 C11 C12 C13 C14 C15 C16 C17 C18 C19
+//@   indexsafe
 //@   requires preferenceFunction != nil
 //@   ensures [state] fresh(result) && result.Criteria == dm.Criteria
 //@   ensures [considered_are_chosen] len(result.ConsideredAlternatives) == len(dm.ChoseToMake) && fresh(result.ConsideredAlternatives)
@@ -550,6 +599,7 @@ package model
 
 //@ func ChooseBiases
 //@   property C08 C20 C07 C01 C03 C04 C05 C06 C09 C11 C12 C13 C14 C15 C16 C17 C18 C19
+//@   indexsafe
 //@   ensures [enabled_known_biases] result != nil && forall k int :: 0 <= k && k < len(*result) ==>
 //@             (*result)[k].Props != nil && !(*result)[k].Props.Disabled && (*result)[k].Bias != nil
 //@             && (*result)[k].Props.Name in *available && *(*result)[k].Bias == (*available)[(*result)[k].Props.Name]
@@ -581,6 +631,7 @@ package model
 
 //@ func (*DecisionMaker).MakeDecision
 //@   property C20 C07 C08 C09 C01 C03 C04 C05 C06 C11 C12 C13 C14 C15 C16 C17 C18 C19
+//@   indexsafe
 //@   fnparam biasApplyProbGenerator pure
 //@   requires [registries_consistent] forall name string :: listensFor(listenerOf(biasListeners, name), funcOf(preferenceFunctions, name))
 //@   requires [distinct_alternatives] (forall i int, j int :: 0 <= i && i < j && j < len(dm.KnownAlternatives) ==> dm.KnownAlternatives[i].Id != dm.KnownAlternatives[j].Id)
@@ -600,15 +651,18 @@ package model
 
 //@ func ValueAlternativeResult
 //@   property C03 C04 C01 C09 C14 C16 C20 C07 C15 C18
+//@   indexsafe
 //@   ensures [single_value] fresh(result) && result.Alternative == *alternative && typeis(result.Evaluation, EvaluationSingleValue) && val(*result) == value
 
 //@ func (*AlternativeResult).Value
 //@   property C03 C04 C01 C09 C14 C16 C07 C15 C18 C20
+//@   indexsafe
 //@   panics_iff [not_single_value] !typeis(a.Evaluation, EvaluationSingleValue)
 //@   ensures [value] result == val(*a)
 
 //@ func (*AlternativeResult).rounded
 //@   property C03 C04 C01 C09 C14 C16 C07 C15 C18 C20
+//@   indexsafe
 //@   panics_iff [not_single_value] !typeis(a.Evaluation, EvaluationSingleValue)
 //@   ensures [rounded] fresh(result) && result.Alternative == a.Alternative && typeis(result.Evaluation, EvaluationSingleValue) && val(*result) == round8(val(*a))
 
@@ -624,6 +678,7 @@ package model
 
 //@ func (*AlternativeResult).positionInRanking
 //@   property C01 C04 C03 C09 C14 C16 C07 C15 C18 C20
+//@   indexsafe
 //@   requires [single] typeis(a.Evaluation, EvaluationSingleValue) && forall j int :: 0 <= j && j < len(*allAlternatives) ==> typeis((*allAlternatives)[j].Evaluation, EvaluationSingleValue)
 //@   requires [sorted] forall i int, j int :: 0 <= i && i < j && j < len(*allAlternatives) ==> val((*allAlternatives)[i]) >= val((*allAlternatives)[j])
 //@   requires [distinct] forall i int, j int :: 0 <= i && i < j && j < len(*allAlternatives) ==> (*allAlternatives)[i].Alternative.Id != (*allAlternatives)[j].Alternative.Id
@@ -655,6 +710,7 @@ package model
 
 //@ func (*AlternativeResults).Ranking
 //@   property C01 C04 C03 C09 C14 C16 C07 C15 C18 C20
+//@   indexsafe
 //@   requires [single] forall j int :: 0 <= j && j < len(*a) ==> typeis((*a)[j].Evaluation, EvaluationSingleValue)
 //@   requires [distinct] forall i int, j int :: 0 <= i && i < j && j < len(*a) ==> (*a)[i].Alternative.Id != (*a)[j].Alternative.Id
 //@   ensures [one_entry_each] fresh(result) && fresh(*result) && len(*result) == len(*a)
@@ -699,15 +755,18 @@ package model
 // the weights of a request: what its "weights" parameter decodes to; a request without that parameter is rejected
 //@ func ExtractWeights
 //@   property C03 C20 C15 C07 C04 C01
+//@   indexsafe
 //@   panics_if [weights_missing] !("weights" in dm.MethodParameters)
 //@   ensures [given] "weights" in dm.MethodParameters
 //@ func WeightsParamOnly
 //@   property C20 C03 C04
+//@   indexsafe
 //@   nopanic
 //@   ensures [schema_of_the_weights_parameter] typeis(result, WeightType)
 
 //@ func Rank
 //@   property C01 C03 C04 C07 C15 C18 C20
+//@   indexsafe
 //@   fnparam pref pure
 //@   fnparam pref ensures result != nil && typeis(result.Evaluation, EvaluationSingleValue) && result.Alternative == *arg0
 //@   requires [distinct] forall i int, j int :: 0 <= i && i < j && j < len(dmp.ConsideredAlternatives) ==> dmp.ConsideredAlternatives[i].Id != dmp.ConsideredAlternatives[j].Id
@@ -732,6 +791,7 @@ package model
 
 //@ func CopyAlternatives
 //@   property C09 C01 C03 C04 C14 C16 C11 C12 C13 C20
+//@   indexsafe
 //@   nopanic
 //@   ensures [fresh_copy] fresh(result) && fresh(*result) && len(*result) == len(*alternatives) && forall k int :: 0 <= k && k < len(*alternatives) ==> (*result)[k] == (*alternatives)[k]
 //@   ensures [input_untouched] unchanged(*alternatives)
@@ -742,7 +802,9 @@ package model
 //@ func ShuffleAlternatives
 //@   assumes [the_shuffle_drawn_from_that_generator] isShuffle(result, alternatives, generator, old(calls(generator)))
 //@   property C09 C01 C03 C04 C14 C16 C11 C12 C13 C20
+//@   indexsafe
 //@   fnparam generator ensures 0.0 <= result && result < 1.0
+//@   nopanic
 //@   ensures [fresh_permutation] fresh(result) && fresh(*result) && len(*result) == len(*alternatives)
 //@   ensures [members] forall k int :: 0 <= k && k < len(*result) ==> exists j int :: 0 <= j && j < len(*alternatives) && (*result)[k] == (*alternatives)[j]
 //@   ensures [none_twice] distinctAltIds(*alternatives) ==> distinctAltIds(*result)
@@ -755,6 +817,7 @@ package model
 // RemoveAlternative deletes the first element with the given id IN PLACE (the caller must own the backing array)
 //@ func RemoveAlternative
 //@   property C09 C01 C03 C04 C14 C16 C11 C12 C13 C20
+//@   indexsafe
 //@   assigns alternatives
 //@   ensures [absent] (forall k int :: 0 <= k && k < len(alternatives) ==> old(alternatives[k]).Id != alternative.Id) ==> result == alternatives && unchanged(alternatives)
 //@   ensures [removed] forall i int :: 0 <= i && i < len(alternatives) && old(alternatives[i]).Id == alternative.Id && (forall k int :: 0 <= k && k < i ==> old(alternatives[k]).Id != alternative.Id) ==>
@@ -766,6 +829,7 @@ package model
 
 //@ func (*AlternativesRanking).ReverseOrder
 //@   property C01 C11 C03 C04 C09 C14 C16 C20
+//@   indexsafe
 //@   assigns *r
 //@   ensures [reversed] *r == old(*r) && forall k int :: 0 <= k && k < len(*r) ==> (*r)[k] == old((*r)[len(*r) - 1 - k])
 //@   loop 1 invariant [ctx] *r == old(*r) && 0 <= i && j == len(*r) - 1 - i && i <= j + 1
@@ -778,6 +842,7 @@ package model
 
 //@ func PrepareCumulatedWeightsMap
 //@   property C15 C07 C20 C16 C18 C19 C01 C09
+//@   indexsafe
 //@   fnparam mapper pure
 //@   ensures [sums_over_considered_alternatives] fresh(result) && fresh(*result) && forall q string :: (q in *result ==> (*result)[q] == old(cumw(params.ConsideredAlternatives, q, len(params.ConsideredAlternatives), mapper)))
 //@             && (!(q in *result) ==> old(cumw(params.ConsideredAlternatives, q, len(params.ConsideredAlternatives), mapper)) == 0.0)
@@ -795,12 +860,14 @@ package model
 
 //@ func WeightIdentity
 //@   property C15 C07 C20 C16 C18 C19 C01 C09
+//@   indexsafe
 //@   nopanic
 //@   ensures [identity] result == value
 
 // ---- the response entry of a bias: name and probability echoed, props = what the bias reported (null when it did not fire)
 //@ func UpdateBiasesProps
 //@   property C08 C09 C01 C03 C04 C05 C06 C07 C11 C12 C13 C14 C15 C16 C17 C18 C19 C20
+//@   indexsafe
 //@   nopanic
 //@   ensures [echo_with_report] fresh(result) && result.Name == oldProps.Name && result.ApplyProbability == oldProps.ApplyProbability && result.Props == update && !result.Disabled
 
@@ -865,10 +932,12 @@ package model
 //@   ensures result == biasName(self)
 //@ func AsBiasesMap
 //@   property C08 C20 C07
+//@   indexsafe
 //@   ensures [by_name] fresh(result) && forall k int :: 0 <= k && k < len(*h) ==> biasName((*h)[k]) in *result
 //@   loop 1 invariant [so_far] fresh(result) && result != nil && forall k int :: 0 <= k && k < iter ==> biasName((*h)[k]) in result
 //@ func (*AlternativeWithCriteria).WithCriteriaValues
 //@   property C17 C09 C01 C03 C04 C07 C14 C15 C16 C18 C19 C20
+//@   indexsafe
 //@   nopanic
 //@   ensures [same_id_new_values] result != nil && fresh(result) && result.Id == a.Id && result.Criteria == *criteriaValues
 //@ func RemoveAlternativeAt
@@ -877,10 +946,12 @@ package model
 //@   ensures [one_shorter] 0 <= index && index < len(alternatives) ==> len(result) == len(alternatives) - 1
 //@ func (*DecisionMaker).AlternativesToConsider
 //@   property C01 C09 C20 C07 C08 C03 C04 C05 C06 C11 C12 C13 C14 C15 C16 C17 C18 C19
+//@   indexsafe
 //@   panics_iff [unknown] exists i int :: 0 <= i && i < len(dm.ChoseToMake) && !(exists k int :: 0 <= k && k < len(dm.KnownAlternatives) && dm.KnownAlternatives[k].Id == dm.ChoseToMake[i])
 //@   ensures [the_chosen_in_request_order] fresh(result) && fresh(*result) && len(*result) == len(dm.ChoseToMake)
 //@             && forall i int :: 0 <= i && i < len(dm.ChoseToMake) ==> (*result)[i].Id == dm.ChoseToMake[i] && (exists k int :: 0 <= k && k < len(dm.KnownAlternatives) && (*result)[i] == dm.KnownAlternatives[k])
 //@ func (*DecisionMaker).Alternative
 //@   property C01 C20 C07 C08 C09
+//@   indexsafe
 //@   panics_iff [unknown] !(exists k int :: 0 <= k && k < len(dm.KnownAlternatives) && dm.KnownAlternatives[k].Id == id)
 //@   ensures [first_match] exists k int :: 0 <= k && k < len(dm.KnownAlternatives) && result == dm.KnownAlternatives[k] && result.Id == id
